@@ -302,7 +302,20 @@ func buildStack(layers []layerSpec, inner http.Handler, prelude bool) (http.Hand
 			}
 			sw := &switchHandler{}
 			sw.set(http.HandlerFunc(func(w http.ResponseWriter, r *http.Request) {}))
-			tl, err := ratelimit.New(sw, extract, rates)
+			var rlOpts []ratelimit.TokenLimiterOption
+			if prelude && l.intervenes == 0 {
+				// per-request rates for requests that name a plan (the aborted request before does: one per minute); the
+				// defaults for everybody else: what a source was given under a plan does not bind it afterwards
+				tight := ratelimit.NewRateSet()
+				_ = tight.Add(time.Minute, 1, 1)
+				rlOpts = append(rlOpts, ratelimit.ExtractRates(ratelimit.RateExtractorFunc(func(r *http.Request) (*ratelimit.RateSet, error) {
+					if r.Header.Get("X-Plan") != "" {
+						return tight, nil
+					}
+					return ratelimit.NewRateSet(), nil
+				})))
+			}
+			tl, err := ratelimit.New(sw, extract, rates, rlOpts...)
 			if err != nil {
 				return nil, err
 			}
@@ -360,6 +373,8 @@ func buildStack(layers []layerSpec, inner http.Handler, prelude bool) (http.Hand
 			var opts []buffer.Option
 			if l.intervenes != 0 {
 				opts = append(opts, buffer.MaxRequestBodyBytes(1))
+			} else if i%2 == 0 {
+				opts = append(opts, buffer.MaxRequestBodyBytes(0), buffer.MaxResponseBodyBytes(0)) // 0: explicitly unlimited
 			}
 			b, err := buffer.New(next, opts...)
 			if err != nil {
@@ -386,6 +401,7 @@ func buildWithPrelude(layers []layerSpec, inner http.Handler, prelude bool) (htt
 	func() {
 		defer func() { _ = recover() }()
 		req := httptest.NewRequest(http.MethodPost, "http://x/some/path?q=1", strings.NewReader("0123456789"))
+		req.Header.Set("X-Plan", "trial")
 		top.ServeHTTP(httptest.NewRecorder(), req)
 	}()
 	sw.set(inner)
